@@ -31,9 +31,9 @@ func (muxHist) Runs(tier string) int64 {
 
 func (muxHist) Meta() core.EngineMeta {
 	return core.EngineMeta{
-		Rule: "Seeded histories of AddElementaryStream/RemoveElementaryStream/SetPCRPID/WriteTables/WriteData/WritePacket (valid and invalid arguments, swarm-drawn weights, retransmit period 1..50) run on the real Muxer over a recording writer; after every call the bytes accepted so far are decoded by the reference TS/PSI decoder and compared with the MuxModel (DESIGN App. A). A run is non-trivial when it emitted at least one table pair and one unit; distinct = distinct abstract fingerprints: the set of (previous op, op, outcome class) 3-grams of the history together with the reach probes hit.",
-		Real: []string{"astits.Muxer and everything below it (packet/PES/PSI/descriptor writers, astikit.BitsWriter)"},
-		Stub: []string{"SimWriter (recording io.Writer, fault-free in this engine)", "refts reference TS/AF/PSI decoder", "MuxModel (stream list, PCR PID, retransmit counter, dirty flag, continuity tracking)"},
+		Rule:       "Seeded histories of AddElementaryStream/RemoveElementaryStream/SetPCRPID/WriteTables/WriteData/WritePacket (valid and invalid arguments, swarm-drawn weights, retransmit period 1..50) run on the real Muxer over a recording writer; after every call the bytes accepted so far are decoded by the reference TS/PSI decoder and compared with the MuxModel (DESIGN App. A). A run is non-trivial when it emitted at least one table pair and one unit; distinct = distinct abstract fingerprints: the set of (previous op, op, outcome class) 3-grams of the history together with the reach probes hit.",
+		Real:       []string{"astits.Muxer and everything below it (packet/PES/PSI/descriptor writers, astikit.BitsWriter)"},
+		Stub:       []string{"SimWriter (recording io.Writer, fault-free in this engine)", "refts reference TS/AF/PSI decoder", "MuxModel (stream list, PCR PID, retransmit counter, dirty flag, continuity tracking)"},
 		FaultKinds: []string{"rejected:data-unknown-pid", "rejected:tables", "rejected:packet-oversize", "rejected:add-duplicate", "rejected:remove-absent", "rejected:data-tables-impossible"},
 		Assumptions: []string{
 			"reference decoder and MuxModel are written from ISO/IEC 13818-1; implementation constants (PMT PID, first counter and version values) are learned from the output, never assumed",
